@@ -172,6 +172,10 @@ func histWorker(req N) (resp N) {
 		"opoverflow": "n := bump()\npoke()\nfunc og(k) { return 1 + og(k + 1) }\nog(0)",
 		"deeppanic":  "n := bump()\npoke()\nfunc dp(k) { if k == 0 { return boom() }\n return dp(k - 1) }\ndp(600)",
 		"cancelled":  "n := bump()\npoke()\nfor { spin() }",
+		// deferred calls that defer again, 40 deep (completes), and 1000 deep ending in unbounded recursion (a Go panic
+		// the API recovers while the deferred calls are in progress)
+		"defernest":  "n := bump()\npoke()\nfunc dn(k) { defer func() { if k > 0 { dn(k - 1) } }()\n return k }\ndn(40)\nx := 0\nfor i := 0; i < 300; i++ { x += i }\nn * 1000 + x % 7",
+		"deferpanic": "n := bump()\npoke()\nfunc ovf(k) { return ovf(k + 1) }\nfunc dd(k) { defer func() { if k == 0 { ovf(0) } else { dd(k - 1) } }()\n return k }\ndd(1000)",
 		// a module of the default globals (no importer involved)
 		"impmod": "n := bump()\npoke()\nimport math\nn * 1000 + math.abs(-1)",
 	}
@@ -187,6 +191,8 @@ func histWorker(req N) (resp N) {
 		"func do_opoverflow() { n := bump(); poke(); func og(k) { return 1 + og(k + 1) }; return og(0) }\n" +
 		"func do_deeppanic() { n := bump(); poke(); func dp(k) { if k == 0 { return boom() }; return dp(k - 1) }; return dp(600) }\n" +
 		"func do_cancelled() { n := bump(); poke(); for { spin() } }\n" +
+		"func do_defernest() { n := bump(); poke(); func dn(k) { defer func() { if k > 0 { dn(k - 1) } }(); return k }; dn(40); x := 0; for i := 0; i < 300; i++ { x += i }; return n * 1000 + x % 7 }\n" +
+		"func do_deferpanic() { n := bump(); poke(); func ovf(k) { return ovf(k + 1) };func dd(k) { defer func() { if k == 0 { ovf(0) } else { dd(k - 1) } }(); return k }; return dd(1000) }\n" +
 		"func do_impmod() { n := bump(); poke(); import math; return n * 1000 + math.abs(-1) }\n"
 	for j := 1; j <= nMods; j++ {
 		lib += fmt.Sprintf("func do_imp%d() { n := bump(); poke(); import m%d; return n * 1000 + m%d.val - 6 }\n", j, j, j)
@@ -210,7 +216,7 @@ func histWorker(req N) (resp N) {
 		return N{"k": "nolib", "msg": err.Error()}
 	}
 	fns := map[string]*object.Function{}
-	fnNames := []string{"normal", "error", "panic", "deeppanic", "overflow", "opoverflow", "cancelled", "impmod"}
+	fnNames := []string{"normal", "error", "panic", "deeppanic", "overflow", "opoverflow", "cancelled", "impmod", "defernest", "deferpanic"}
 	for j := 1; j <= nMods; j++ {
 		fnNames = append(fnNames, fmt.Sprintf("imp%d", j))
 	}
@@ -324,7 +330,7 @@ func histWorker(req N) (resp N) {
 			rerr = fmt.Errorf("Go panic out of the API call: %s", escaped)
 		case rerr == nil:
 			want := (before+1)*1000 + 44850%7
-			if iv, ok := val.(*object.Int); (kind == "normal" || kind == "impok" || kind == "impmod") && ok && iv.Value() == want {
+			if iv, ok := val.(*object.Int); (kind == "normal" || kind == "impok" || kind == "impmod" || kind == "defernest") && ok && iv.Value() == want {
 				obs = "value"
 			} else if val == nil {
 				obs = "cut" // success without the value
